@@ -36,7 +36,7 @@ def pause_groups(results, max_per_tree=60, rng=None):
     rng = rng or random.Random(0)
     cands = []
     for r in results:
-        leaves = [n for n, f in r["fins"].items() if f["wf"] in TERMINAL and f["rest"]]
+        leaves = [n for n, f in r["fins"].items() if f["rest"]]      # incl. runs that got stuck after the resume
         picked = []
         for n in leaves:
             sched = P.node_schedule(r, n)
@@ -129,6 +129,8 @@ def persist_groups(results, per_tree=6, rng=None, subsets=2):
                 k = rng.randint(1, max(1, ncalls))
                 plist.append(sorted(rng.sample(range(1, ncalls + 1), min(k, ncalls))))
             plist.append([rng.randint(1, ncalls)])
+            plist.append([0])
+            plist.append([0, 1, 2])
             for pts in plist:
                 jobs.append((r["d"], sched, r["lang"], r["tok"], pts if pts == "all" else set(pts),
                              bool(r["env"].get("lazy"))))
